@@ -18,6 +18,7 @@ long vxs_steps(void);
 void vxs_point(const char* label);
 int vxs_managed(void);
 void vxs_set_point_after_unlock(int v);
+void vxs_set_free_switch(int v);
 int vxs_choose(int n, int deviation, const char* label);
 void vxs_fatal(int code, const char* what);
 }
@@ -56,6 +57,7 @@ struct Options {
     int max_preempt = 2;
     long step_limit = 200000;
     int max_violations = 3;
+    bool free_switch = true;   // false: picking a non-default thread at a blocking point / signal also costs a deviation
     double exec_timeout_s = 20; // wall limit for one child without progress → harness error, not a violation
 };
 struct Outcome {
@@ -97,6 +99,7 @@ inline Outcome explore(const std::string& key_prefix, const std::function<std::s
     memset(s, 0, sizeof *s);
     shm() = s;
     s->max_dev = opt.max_preempt;
+    vxs_set_free_switch(opt.free_switch ? 1 : 0);
     s->next_len = 0;
     bool have_replay = !vx::ctx().replay.empty();
     if (have_replay) {
